@@ -38,9 +38,47 @@ func ruleC02V1(c *Ctx, t *thrModel, rule string) {
 				call = ci
 			}
 		}
+		// … or the message is built by a decoding helper that returns it, and its only caller hands it over:
+		// what holds at the helper's return of this very message holds at the hand-over too
+		var viaReturn *ssa.Return
+		if call == nil {
+			if hc := helperCall(fn); hc != nil {
+				for _, in := range instrsOf(fn) {
+					if r, ok := in.(*ssa.Return); ok && len(r.Results) >= 1 && strip(retResult(r, 0)) == ssa.Value(a) {
+						viaReturn = r
+					}
+				}
+				if viaReturn != nil {
+					var res ssa.Value = hc
+					if hc.Referrers() != nil {
+						for _, rf := range *hc.Referrers() {
+							if e, ok := rf.(*ssa.Extract); ok && e.Index == 0 {
+								res = e
+							}
+						}
+					}
+					for _, in := range instrsOf(hc.Parent()) {
+						ci, ok := in.(ssa.CallInstruction)
+						if !ok || len(ci.Common().Args) != 2 || ci.Common().IsInvoke() {
+							continue
+						}
+						noParamLook++
+						a0 := strip(ci.Common().Args[0])
+						noParamLook--
+						if a0 == res {
+							call = ci
+						}
+					}
+				}
+			}
+		}
 		if call == nil {
 			c.Unk(rule, fname, "rbcMsg hand-over call", pos, "the message built here is not passed to a handler call the analyser recognises")
 			continue
+		}
+		factsAtHandOver := FactsAt(call)
+		if viaReturn != nil {
+			factsAtHandOver = append(factsAtHandOver, FactsAt(viaReturn)...)
 		}
 		// transport source
 		c.Check(isLoadOfField(call.Common().Args[1], t.fIncSource), rule, fname, "handler `from` argument", t.m.Pos(call.Pos()),
@@ -96,7 +134,7 @@ func ruleC02V1(c *Ctx, t *thrModel, rule string) {
 				c.Check(isExtract(get(t.fMsgBroadcast), 1), rule, fname, "rbcMsg.broadcast", pos, "broadcast ← classifier(payload)#1",
 					"the broadcast class is not the local classifier's verdict on the received payload (a sender could bypass RBC)")
 				// the error of the classifier is checked before the hand-over
-				okErr := hasFact(FactsAt(call), func(f Fact) bool {
+				okErr := hasFact(factsAtHandOver, func(f Fact) bool {
 					e, ok := strip(f.X).(*ssa.Extract)
 					if f.Op == 0 || !ok {
 						return false
@@ -241,8 +279,8 @@ func ruleC02V3(c *Ctx, t *thrModel) {
 	// (a) setup stores a closure into RBF whose results are &threadSafeRBC{h: old(...).Receive}
 	okA := false
 	for _, st := range storesToField(deepFuncs(t.setup), t.fRBF) {
-		mc, ok := strip(st.Val).(*ssa.MakeClosure)
-		if !ok {
+		mc, _ := closureLiteral(st.Val)
+		if mc == nil {
 			continue
 		}
 		f := mc.Fn.(*ssa.Function)
